@@ -66,7 +66,8 @@ def rules_map():
     return G.Rules2G(**GEN, expr=[
         ("callable($x)", "{x}.callable"),
         ("len(f)", "(MArg.lenE f)", "bind"),
-        ("zip($a, $b)", "(List.zip (PyIter.iter {a}) (PyIter.iter {b}))"),
+        ("zip($a, $b)", "(PyZip.zip {a} {b})"),
+        ("repeat($x)", "(Py.Rep.mk {x})"),
         ("partial(delayed, $g, $x)", "(LThunk.app (ToFnId.fid {g}) {x})"),
         ("partial(_delayed, $g, $x)", "(LThunk.app (ToFnId.fid {g}) {x})"),
         ("$x.copy()", "(LL.fresh (genCopy {x}))"),
